@@ -3,6 +3,7 @@ from contracts import headervd as H
 from contracts import dr as D
 from contracts import utils as U
 from contracts import rr_ce as CE
+from contracts import acct as A
 
 
 def units(tier):
@@ -10,6 +11,11 @@ def units(tier):
           Unit(H.AddToPtrSize, {'remove': False}), Unit(H.AddToPtrSize, {'remove': True}), Unit(H.VDCopy), Unit(D.RecalcStep)]
     for n, idx in ((1, 0), (2, 1), (3, 0), (3, 2), (4, 2)) if tier == 'quick' else [(n, i) for n in range(1, 7) for i in range(0, n)]:
         us.append(Unit(D.RecalcWhole, {'n': n, 'index': idx}))
+    for rem in (False, True):
+        for npvd in (1, 2, 3):
+            us.append(Unit(A.AddToPtrSizeAllPVDs, {'remove': rem, 'npvd': npvd}))
+        for jol, enh, alw in ((True, False, False), (False, True, True), (True, True, False), (False, False, True)):
+            us.append(Unit(A.FinishAdd, {'remove': rem, 'joliet': jol, 'enhanced': enh, 'always': alw}))
     for n in ((0, 1, 2, 3) if tier == 'quick' else range(0, 6)):
         us.append(Unit(CE.CEAddEntry, {'n': n}))
     for n in (0, 1, 2):
